@@ -271,5 +271,7 @@ class RainfallClimateNetwork(ClimateNetwork):
         # Get rank time series
         time_series_ranked = self.rank_time_series(anomaly)
         m, tmax = anomaly.shape
+        if final_mask.shape != anomaly.shape:
+            raise ValueError("final_mask and anomaly must have the same shape.")
         return spearman_corr(
             m, tmax, to_cy(final_mask, MASK), to_cy(time_series_ranked, FIELD))
